@@ -618,9 +618,80 @@ fn concurrent(rng: &mut Rng, rep: &mut Report, case_no: u64, small: bool) {
     }
 }
 
+/// A cast that is right most of the time: the address check is made on every conversion, not
+/// only on the first one of a type.
+pub trait MoodyObj {
+    fn hello(&self) -> u64;
+}
+impl MoodyObj for O3 {
+    fn hello(&self) -> u64 {
+        self.n
+    }
+}
+static MOODY_BAD: std::sync::atomic::AtomicBool = std::sync::atomic::AtomicBool::new(false);
+unsafe impl CastFrom<O3> for dyn MoodyObj {
+    fn cast(t: *mut O3) -> *mut Self {
+        if MOODY_BAD.load(std::sync::atomic::Ordering::SeqCst) {
+            static mut OTHER: O3 = O3 { n: 77, pad: [3; 4] };
+            std::ptr::addr_of_mut!(OTHER)
+        } else {
+            t
+        }
+    }
+}
+
+fn moody_cast(rep: &mut Report, case_no: u64) {
+    use std::sync::atomic::Ordering::SeqCst;
+    rep.evaluations += 1;
+    let mut t: MetaTable<dyn MoodyObj> = MetaTable::new();
+    t.register::<O3>();
+    let mut w = World::empty();
+    w.insert(O3::new(5));
+    MOODY_BAD.store(false, SeqCst);
+    // some good conversions first, through every path
+    let good = catch_unwind(AssertUnwindSafe(|| {
+        let a = t.get(&*w.fetch::<O3>() as &dyn Resource).map(|o| o.hello());
+        let b: Vec<u64> = t.iter(&w).map(|o| o.hello()).collect();
+        let c: Vec<u64> = t.iter_mut(&w).map(|o| o.hello()).collect();
+        let res = w.get_mut_raw(ResourceId::new::<O3>()).unwrap();
+        let d = t.get_mut(res).map(|o| o.hello());
+        (a, b, c, d)
+    }));
+    if let Err(p) = good {
+        rep.violation("good_cast_rejected", &format!("a correct cast was rejected: {}", payload_str(&*p)), case_no, J::Null);
+        return;
+    }
+    // now the same type's cast misbehaves: every path must reject it
+    MOODY_BAD.store(true, SeqCst);
+    for path in 0..4 {
+        let r = catch_unwind(AssertUnwindSafe(|| match path {
+            0 => t.get(&*w.fetch::<O3>() as &dyn Resource).map(|o| o.hello()),
+            1 => t.iter(&w).map(|o| o.hello()).next(),
+            2 => t.iter_mut(&w).map(|o| o.hello()).next(),
+            _ => {
+                let res = w.get_mut_raw(ResourceId::new::<O3>()).unwrap();
+                t.get_mut(res).map(|o| o.hello())
+            }
+        }));
+        if let Ok(x) = r {
+            MOODY_BAD.store(false, SeqCst);
+            rep.violation(
+                "bad_cast_accepted",
+                &format!("after correct conversions of the same type a cast that returns a different address was accepted by {} and yielded {:?}", ["get", "iter", "iter_mut", "get_mut"][path], x),
+                case_no,
+                J::Null,
+            );
+            return;
+        }
+    }
+    MOODY_BAD.store(false, SeqCst);
+    rep.metric("bad_cast_after_good_ones_rejected", 1);
+}
+
 fn bad_cast_case(rep: &mut Report) {
     bad_cast(rep, 49);
     bad_cast_zst(rep, 49);
+    moody_cast(rep, 49);
 }
 
 pub fn run(args: &Args) -> i32 {
